@@ -48,14 +48,15 @@ PROP = dict(
           "Distinct = distinct case encodings; the hot loops (2^24 three-byte strings per function, 6^8 eight-character texts) register one entry "
           "per block, so the distinct count is a lower bound."),
     assumptions=["base64 validity predicate (RFC 4648 + the property statement): length % 4 == 0, every character in the alphabet, '=' only in "
-                 "the last position or in the last two positions; non-zero unused trailing bits are accepted (Python accepts them too) and ignored",
+                 "the last position or in the last two positions; a text of that shape with non-zero unused trailing bits (which no encoder produces) may be "
+                 "decoded (bits dropped, as /repo and Python do) or refused with invalid_argument as non-canonical - both are within the statement",
                  "hosts are non-empty and colon-free, ports and default ports are in 0..65535; port 0 renders without ':' and parses back "
                  "to the default port",
                  "escape_url: which of the permitted characters (unreserved, '=', '&', '/' unless escape_slash) are left literal is the escaper's "
                  "policy - the statement asks for permitted output characters and an exact inverse; escaping more than RFC 3986 requires is counted "
                  "(classes esc_url:* / escurl:*), not reported",
                  "'throws invalid_argument' is satisfied by any type derived from std::invalid_argument (C++ handlers; the Python stage is given the base name)",
-                 "escape_quotes does not escape backslashes, so its output is decoded back only for backslash-free inputs",
+                 "escape_quotes: only 'no raw quote, no non-printable byte' is stated; whether its output decodes back through a \\\" / \\xHH reader is counted, not judged",
                  "netloc_fb: what render_netloc prints for the empty host is outside the round-trip clause and is not asserted; it is only used, made colon-free, as a host "
                  "like any other non-empty colon-free string (an empty derivation falls back to the whole text)",
                  "the functions are pure functions of their arguments, hence reentrant: concurrent calls on different inputs each return the "
